@@ -359,10 +359,26 @@ def locate_theorem(src, err):
 
 
 def parse_print_assumptions(out):
-    res = []
-    for m in re.finditer(r'(Closed under the global context|Axioms:\n(?:.+\n?)+)',
-                         out):
-        res.append(re.sub(r'\s+', ' ', m.group(1)).strip())
+    """One entry per Print Assumptions: 'Closed under the global context' or
+    'Axioms: name : type; ...'."""
+    res, cur = [], None
+    for line in out.splitlines():
+        if line.startswith('Closed under the global context'):
+            if cur is not None:
+                res.append(cur)
+                cur = None
+            res.append('Closed under the global context')
+        elif line.startswith('Axioms:'):
+            if cur is not None:
+                res.append(cur)
+            cur = 'Axioms:'
+        elif cur is not None and (' : ' in line or line.startswith(' ')):
+            cur += ' ' + re.sub(r'\s+', ' ', line).strip()
+        elif cur is not None:
+            res.append(cur)
+            cur = None
+    if cur is not None:
+        res.append(cur)
     return res
 
 
